@@ -124,7 +124,9 @@ def parseCfg (s : String) (inputs : List Bytes) (agg : Bool) (cls : Line → Cls
     let b ← b.toNat?
     let _ ← flush.toNat?
     -- a reader source always runs the timed batching loop (250ms, or the harness' short timeout)
-    pure { files := mode = "f", batch := batch, W := w, R := if mode = "f" then r else 1, B := b, timed := mode ≠ "f",
+    -- an unbuffered batch channel (`buffer = 0`): every execution is an execution of the system with capacity 1
+    -- (theorem `pipeline_unbuffered_refines`), which is what the log is checked against
+    pure { files := mode = "f", batch := batch, W := w, R := if mode = "f" then r else 1, B := if b = 0 then 1 else b, timed := mode ≠ "f",
            inputs := inputs, agg := agg, cls := cls }
   | _ => none
 
